@@ -83,25 +83,25 @@ def gen_case(r, cid, tier):
     rule, order = r.choice(KINDS)
     if order is None:
         order = r.choice([2, 3, -1]) if rule == "semi-localp" else r.choice([1, 1, 2, 3, -1])
-        cap = {1: 5, 2: 4, 3: 3, 4: 2}[d]
+        cap = {1: 7, 2: 5, 3: 4, 4: 3}[d]
         if rule == "localp-zero":
-            cap = {1: 4, 2: 3, 3: 2, 4: 2}[d]
+            cap = {1: 6, 2: 4, 3: 3, 4: 2}[d]
     else:
-        cap = {1: 3, 2: 2, 3: 1, 4: 1}[d]
+        cap = {1: 4, 2: 3, 3: 2, 4: 1}[d]
     depth = r.randint(1, cap)
     outs = r.choice([1, 1, 2, 3])
     lines = ["case " + cid, "cap %d" % (700 if tier == "quick" else 1500),
-             "make %d %d %d %d %s%s" % (d, outs, depth, order, rule, gl.kv("ll:", rand_ll(r, d)) if r.random() < 0.15 else ""),
+             "make %d %d %d %d %s%s" % (d, outs, depth, order, rule, gl.kv("ll:", rand_ll(r, d)) if r.random() < 0.08 else ""),
              "load " + r.choice(FNS)]
-    for _ in range(r.randint(0, 3)):
+    for _ in range(r.randint(0, 4)):
         if r.random() < 0.75:
-            lo = {1: 0.3, 2: 0.5, 3: 0.7, 4: 0.8}[d]
-            lines.append("ref q%.2f %s%s" % (r.uniform(lo, 0.97), r.choice(CRITS), tail(r, d, outs, 0.2, 0.2)))
+            lo = {1: 0.2, 2: 0.35, 3: 0.5, 4: 0.6}[d]
+            lines.append("ref q%.2f %s%s" % (r.uniform(lo, 0.97), r.choice(CRITS), tail(r, d, outs, 0.08, 0.2)))
             lines.append("load " + r.choice(FNS))
         else:
             lines.append("rem %.2f" % r.uniform(0.4, 0.9))
     for crit in r.sample(CRITS, r.randint(2, 4)):
-        lines.append("sel %s %s%s" % (sel_tol(r), crit, tail(r, d, outs, 0.4, 0.3)))
+        lines.append("sel %s %s%s" % (sel_tol(r), crit, tail(r, d, outs, 0.2, 0.3)))
     return lines
 
 
@@ -151,6 +151,9 @@ def check_sel(res, st, cid, script, stats, sa_lines, sa_info, isotropic_doc):
 
     def viol(key, what):
         stats["violations"] += 1
+        if key in stats["keys"]:      # one replay per key
+            return
+        stats["keys"].add(key)
         res.violation(key, "%s [case %s: %s ; %s]" % (what, cid, script[1] if script[1].startswith("make") else script[2], st.cmd), dict(replay, detail=what))
 
     prow = [tuple(pidx[i * d:(i + 1) * d]) for i in range(n)]
@@ -248,11 +251,11 @@ def run(res, tier, seed, replay_script=None):
     else:
         for ls in matrix_cases():
             scripts[ls[0].split()[1]] = ls
-        for i in range({"quick": 330, "thorough": 4000}[tier] * (2 if proof_broken else 1)):
+        for i in range({"quick": 1000, "thorough": 12000}[tier] * (2 if proof_broken else 1)):
             cid = "s%d" % i
             scripts[cid] = gen_case(r, cid, tier)
     lines = [l for ls in scripts.values() for l in ls]
-    stats = {"sel": 0, "violations": 0, "by_crit": {}, "by_rule": {}, "by_dim": {}, "with_limits": 0, "with_scale": 0, "nonempty": 0,
+    stats = {"sel": 0, "violations": 0, "keys": set(), "by_crit": {}, "by_rule": {}, "by_dim": {}, "with_limits": 0, "with_scale": 0, "nonempty": 0,
              "map_points_checked": 0, "map_points_skipped_borderline": 0, "stable_mixed_rows": 0, "skipped_too_large": 0, "skipped_timeout": 0,
              "incomplete_loaded_sets": 0}
     mism, agree, exhausted = [], 0, 0
@@ -297,6 +300,10 @@ def run(res, tier, seed, replay_script=None):
                 mism.append(line)
             elif line.startswith("agree"):
                 agree += int(line.split()[1])
+            elif line.startswith("ok ") and line.endswith("holes=1"):
+                stats["incomplete_loaded_sets"] += 1
+                c = sa_info.get(line.split()[1], ("", "?", ""))[1]
+                stats.setdefault("incomplete_by_crit", {})[c] = stats.setdefault("incomplete_by_crit", {}).get(c, 0) + 1
         if rc3 != 0:
             mism.append("MISMATCH - runner-failed " + me[-300:])
     # a selection mismatch IS a failure of the property (the map is the implementation's own): concrete replay = the case script
@@ -326,6 +333,7 @@ def run(res, tier, seed, replay_script=None):
     cov.update({
         "cases": len(cases), "selections_compared": len(sa_lines), "selections_agree_exactly": agree, "disagreements": len(mism),
         "completeToLower_fuel_exhausted": exhausted, "nonempty_proposals": stats["nonempty"],
+        "loaded_sets_with_missing_parents": stats["incomplete_loaded_sets"], "loaded_sets_with_missing_parents_by_criterion": stats.get("incomplete_by_crit", {}),
         "by_criterion": stats["by_crit"], "by_rule": stats["by_rule"], "by_dimension": stats["by_dim"],
         "with_level_limits": stats["with_limits"], "with_scale_correction": stats["with_scale"],
         "update_map_points_checked": stats["map_points_checked"], "update_map_points_skipped_borderline": stats["map_points_skipped_borderline"],
@@ -365,7 +373,7 @@ def finish_standalone(res):
         print("DETAIL property=%s key=%s %s" % (PID, v["key"], v["what"][:400].replace("\n", " ")))
         print("VIOLATION property=%s replay=%s%s" % (PID, v["replay"], " no-failing-input-found" if v["no_input"] else ""))
     short = {k: cov.get(k) for k in ("obligations", "discharged", "cases", "selections_compared", "selections_agree_exactly", "disagreements",
-                                      "completeToLower_fuel_exhausted", "nonempty_proposals", "by_criterion", "by_rule", "by_dimension",
+                                      "completeToLower_fuel_exhausted", "nonempty_proposals", "loaded_sets_with_missing_parents", "by_criterion", "by_rule", "by_dimension",
                                       "with_level_limits", "with_scale_correction", "update_map_points_checked",
                                       "update_map_points_skipped_borderline", "stable_selections_with_direction_dependent_rows",
                                       "skipped_too_large", "skipped_timeout", "wall_s")}
